@@ -25,10 +25,19 @@ def Init (g : G) : Prop :=
 
 instance (g : G) : Decidable (Init g) := by unfold Init; infer_instance
 
+theorem inflightRev_eq (c : Client) : inflightRev c = c.pc.inflight := by
+  obtain ⟨id, kind, pc, bd⟩ := c
+  cases pc <;> rfl
+
+/-- The sequencing invariant holds in every reachable state. -/
+theorem sinv {g0 g : G} (h0 : Init g0) (hr : Reachable g0 g) : SInv g.view :=
+  hr.closed SInv.closed (SInv.init h0.1 h0.2.1 h0.2.2.1)
+
 /-- The read revision never reaches the revision of a write whose storage transaction has not finished. -/
 theorem committed_lt_unfinished {g0 g : G} (h0 : Init g0) (hr : Reachable g0 g)
     (c : Client) (hc : c ∈ g.clients) (r : Nat) (hi : inflightRev c = some r) : g.committed < r := by
-  sorry
+  rw [inflightRev_eq] at hi
+  exact (sinv h0 hr).inflR c hc r hi
 
 /-- Slot accounting: every dealt revision above the committed one is either in a filled slot or owned
 by exactly one in-flight request that will still report it — never both, never neither. -/
@@ -36,30 +45,93 @@ theorem slot_accounting {g0 g : G} (h0 : Init g0) (hr : Reachable g0 g) (r : Nat
     (hlo : g.committed < r) (hhi : r ≤ g.dealt) :
     ((∃ w ∈ g.slots, w.rev = r) ∧ ¬ ∃ c ∈ g.clients, inflightRev c = some r) ∨
     ((¬ ∃ w ∈ g.slots, w.rev = r) ∧ ∃ c ∈ g.clients, inflightRev c = some r) := by
-  sorry
+  have h := sinv h0 hr
+  simp only [inflightRev_eq]
+  rcases h.cover r hlo hhi with hs | hc
+  · left
+    refine ⟨hs, ?_⟩
+    rintro ⟨c, hc, hi⟩
+    obtain ⟨w, hw, rfl⟩ := hs
+    exact h.slotInfl w hw c hc hi
+  · right
+    refine ⟨?_, hc⟩
+    rintro ⟨w, hw, rfl⟩
+    obtain ⟨c, hc, hi⟩ := hc
+    exact h.slotInfl w hw c hc hi
 
-theorem committed_le_dealt {g0 g : G} (h0 : Init g0) (hr : Reachable g0 g) : g.committed ≤ g.dealt := by
-  sorry
+theorem committed_le_dealt {g0 g : G} (h0 : Init g0) (hr : Reachable g0 g) : g.committed ≤ g.dealt :=
+  (sinv h0 hr).le
+
+/-- With nothing in flight, the slot of `committed + 1` is filled, and the sequencer consumes it
+without touching the dealt counter or the clients. -/
+theorem stepSeq_quiescent {g : G} (h : SInv g.view) (hq : ∀ c ∈ g.clients, c.pc.inflight = none)
+    (hlt : g.committed < g.dealt) :
+    (stepSeq g).committed = g.committed + 1 ∧ (stepSeq g).dealt = g.dealt ∧
+      (stepSeq g).clients = g.clients := by
+  have hs : ∃ w ∈ g.slots, w.rev = g.committed + 1 := by
+    rcases h.cover (g.committed + 1) (Nat.lt_succ_self _) hlt with hs | ⟨c, hc, hi⟩
+    · exact hs
+    · have := hq c hc
+      rw [this] at hi
+      cases hi
+  obtain ⟨w, hw, hwr⟩ := hs
+  unfold stepSeq
+  split
+  · rename_i hnone
+    have := List.find?_eq_none.mp hnone w hw
+    simp [hwr] at this
+  · rename_i w' hw'
+    have h1 : w' ∈ g.slots := List.mem_of_find?_eq_some hw'
+    have h2 : w'.rev = g.committed + 1 := by simpa using List.find?_some hw'
+    have h3 := h.slotR w' h1
+    refine ⟨h2, ?_, rfl⟩
+    show max g.dealt w'.rev = g.dealt
+    have : w'.rev ≤ g.dealt := h3.2
+    omega
 
 /-- No stall: when no request is in flight and some revision is still unresolved, the sequencer has
 an enabled step, and that step advances the read revision by exactly one. -/
 theorem sequencer_enabled {g0 g : G} (h0 : Init g0) (hr : Reachable g0 g)
     (hq : ∀ c ∈ g.clients, inflightRev c = none) (hlt : g.committed < g.dealt) :
     (stepSeq g).committed = g.committed + 1 := by
-  sorry
+  simp only [inflightRev_eq] at hq
+  exact (stepSeq_quiescent (sinv h0 hr) hq hlt).1
 
 /-- Once all in-flight requests have returned, running the sequencer reaches the highest revision
 handed out — for every mix of outcomes, including drift rejections and storage errors. -/
 theorem quiescent_catches_up {g0 g : G} (h0 : Init g0) (hr : Reachable g0 g)
     (hq : ∀ c ∈ g.clients, inflightRev c = none) :
     (run g (List.replicate (g.dealt - g.committed) Action.seq)).committed = g.dealt := by
-  sorry
+  simp only [inflightRev_eq] at hq
+  have hle := committed_le_dealt h0 hr
+  generalize hn : g.dealt - g.committed = n
+  induction n generalizing g with
+  | zero =>
+    show g.committed = g.dealt
+    omega
+  | succ n ih =>
+    have hlt : g.committed < g.dealt := by omega
+    obtain ⟨e1, e2, e3⟩ := stepSeq_quiescent (sinv h0 hr) hq hlt
+    have hr' : Reachable g0 (stepSeq g) := hr.step .seq
+    have := ih hr' (by rw [e3]; exact hq) (by omega) (by omega)
+    rw [e2] at this
+    simpa [run, List.replicate_succ, act] using this
+
+/-- The full invariant (sequencing and finished-request log) holds in every state reachable from an
+initial state whose ghost log of finished requests is empty. -/
+theorem finv {g0 g : G} (h0 : Init g0) (hd0 : g0.done = []) (hr : Reachable g0 g) : FInv g.view :=
+  hr.closed FInv.closed ⟨SInv.init h0.1 h0.2.1 h0.2.2.1, DInv.init hd0⟩
 
 /-- Every request that returned consumed exactly one revision and reported it: nothing it dealt is
-left unresolved (in particular the revision-drift rejections). -/
-theorem done_resolved {g0 g : G} (h0 : Init g0) (hr : Reachable g0 g) (d : Done) (hd : d ∈ g.done) :
+left unresolved (in particular the revision-drift rejections). (`hd0`: the ghost log of finished
+requests starts empty — `Init` alone does not say so.) -/
+theorem done_resolved {g0 g : G} (h0 : Init g0) (hd0 : g0.done = []) (hr : Reachable g0 g)
+    (d : Done) (hd : d ∈ g.done) :
     d.rev ≠ 0 ∧ (d.rev ≤ g.committed ∨ ∃ w ∈ g.slots, w.rev = d.rev) := by
-  sorry
+  have h := (finv h0 hd0 hr).2
+  refine ⟨?_, h.dRes d hd⟩
+  have := (h.dR d hd).1
+  omega
 
 /-! Non-vacuity: a reachable state with an out-of-order completion and a drift rejection. -/
 def ex0 : G := { dealt := 1000, committed := 1000 }
